@@ -361,11 +361,16 @@ class ModelEval(Evaluator):
                 return self.invoke(m, [v], {}, node) != 0
             return True
         if isinstance(v, Marker):
-            return True
+            if v.kind == "pyscalar":
+                raise Unsupported("truth value of the number %r is not decided by the abstraction" % (v,))
+            return True          # functions, classes, modules, exception objects
         if isinstance(v, Model):
             t = getattr(v, "truth", None)
             if t is not None:
                 return t()
+            if not (hasattr(type(v), "__bool__") or hasattr(type(v), "__len__")):
+                # python would call any object true: a token that does not say what its truth value is must not decide a branch
+                raise Unsupported("truth value of the token %r is not decided by the abstraction%s" % (v, " (line %d)" % node.lineno if node is not None and hasattr(node, "lineno") else ""))
             try:
                 return bool(v)
             except Unsupported:
@@ -648,10 +653,39 @@ class ModelEval(Evaluator):
             self.invoke(init, [obj] + list(args), kwargs, node)
         return obj
 
+    MEMO_DECORATORS = ("functools.lru_cache", "functools.cache")
+    TRANSPARENT_DECORATORS = ("property", "staticmethod", "classmethod", "setter", "numba.njit", "numba.jit", "functools.wraps", "numba.prange")
+
+    def memo_key(self, callee, args, kwargs):
+        """functools.lru_cache / functools.cache on a package function: results are remembered per argument values for the life of the process
+        (= of the fold: the memo lives with the module-level state) -> key, or None when the function is not memoised"""
+        for d in callee.node.decorator_list:
+            f = d.func if isinstance(d, ast.Call) else d
+            if self.tree.dotted(callee.module, f) in self.MEMO_DECORATORS:
+                def k(x):
+                    if isinstance(x, (str, int, float, bool, type(None), bytes)):
+                        return (type(x).__name__, x)
+                    if isinstance(x, tuple):
+                        return tuple(k(y) for y in x)
+                    return ("object", id(x))
+                return (callee.qual, tuple(k(x) for x in args), tuple(sorted((n_, k(v)) for n_, v in kwargs.items())))
+        return None
+
     def invoke(self, callee, args, kwargs, node):
         if self.depth >= self.MAX_DEPTH:
             raise Unsupported("interpretation depth exceeded at %s" % callee.qual)
         self.shared["functions"].add(callee.qual)
+        mk = self.memo_key(callee, args, kwargs) if callee.node.decorator_list else None
+        if mk is not None:
+            memo = (self.hooks.setdefault("_module_state", {}) if isinstance(self.hooks, dict) else {}).setdefault("__memo__", {})
+            if mk in memo:
+                return memo[mk]
+            res = self._invoke(callee, args, kwargs, node)
+            memo[mk] = res
+            return res
+        return self._invoke(callee, args, kwargs, node)
+
+    def _invoke(self, callee, args, kwargs, node):
         a = callee.node.args
         names = [x.arg for x in a.posonlyargs + a.args]
         env = {}
@@ -809,8 +843,47 @@ class ModelEval(Evaluator):
             if not self.truth(self.ev(st.test), st.test):
                 raise Raised("AssertionError", st)
             return
-        if isinstance(st, (ast.FunctionDef, ast.ClassDef)):
-            raise Unsupported("nested definition")
+        if isinstance(st, ast.FunctionDef):
+            # a nested function: a closure over THIS environment (by reference, as in python); no decorators, no generators
+            if st.decorator_list or _is_generator(st):
+                raise Unsupported("nested definition with decorators / yield")
+            outer, fnode = self, st
+
+            def closure(*args, **kwargs):
+                a = fnode.args
+                names = [x.arg for x in a.posonlyargs + a.args]
+                if len(args) > len(names) and a.vararg is None:
+                    raise Raised("TypeError", fnode, "%s() takes %d positional arguments" % (fnode.name, len(names)))
+                env = _ChainEnv(outer.env)
+                for n_, d in zip(names[len(names) - len(a.defaults):], a.defaults):
+                    env[n_] = outer.ev(d)
+                for x, d in zip(a.kwonlyargs, a.kw_defaults):
+                    if d is not None:
+                        env[x.arg] = outer.ev(d)
+                for n_, v in zip(names, args):
+                    env[n_] = v
+                if a.vararg is not None:
+                    env[a.vararg.arg] = tuple(args[len(names):])
+                extra = {}
+                for k, v in kwargs.items():
+                    if k in names or k in [x.arg for x in a.kwonlyargs]:
+                        env[k] = v
+                    elif a.kwarg is not None:
+                        extra[k] = v
+                    else:
+                        raise Raised("TypeError", fnode, "%s() got an unexpected keyword argument %r" % (fnode.name, k))
+                if a.kwarg is not None:
+                    env[a.kwarg.arg] = extra
+                missing = [n_ for n_ in names if n_ not in env.local]
+                if missing:
+                    raise Raised("TypeError", fnode, "%s() missing argument %s" % (fnode.name, missing[0]))
+                sub = ModelEval(outer.tree, outer.fi, env, outer.hooks, outer.depth + 1, outer.shared)
+                return sub.run_body(fnode.body)
+            closure.__name__ = st.name
+            self.env[st.name] = closure
+            return
+        if isinstance(st, ast.ClassDef):
+            raise Unsupported("nested class definition")
         return super().exec_stmt(st)
 
     def handler_names(self, h):
@@ -912,6 +985,26 @@ class ModelEval(Evaluator):
 
     def ev_Starred(self, node):
         raise Unsupported("starred expression outside a call")
+
+
+class _ChainEnv(dict):
+    """the local names of a nested function on top of the enclosing function's environment (read through, written locally)"""
+
+    def __init__(self, parent):
+        super().__init__()
+        self.parent = parent
+        self.local = self
+
+    def __missing__(self, k):
+        return self.parent[k]
+
+    def __contains__(self, k):
+        return dict.__contains__(self, k) or k in self.parent
+
+    def get(self, k, default=None):
+        if dict.__contains__(self, k):
+            return dict.__getitem__(self, k)
+        return self.parent.get(k, default)
 
 
 class _ModuleCtx:
